@@ -72,6 +72,7 @@ theorem posOk_argMain : PosOk callArgMainPrec callArgMainSide := Or.inl (by deci
 
 theorem pos_argMain (x : XExpr) (h : needParen x.prec callArgMainPrec callArgMainSide = false) : x.lvl ≤ 14 := by
   cases x with
+  | lit l => simp only [XExpr.prec, XExpr.lvl, litPrec] at h ⊢ <;> generalize litNegative l = b at h ⊢ <;> cases b <;> revert h <;> decide
   | un o _ => cases o <;> simp only [XExpr.prec, XExpr.lvl] at h ⊢ <;> revert h <;> decide
   | bin o _ _ => cases o <;> simp only [XExpr.prec, XExpr.lvl] at h ⊢ <;> revert h <;> decide
   | _ => simp only [XExpr.prec, XExpr.lvl] at h ⊢ <;> revert h <;> decide
